@@ -87,3 +87,22 @@ Definition displayed (filters : list string) (g : fullgraph) : list string :=
 Definition drawn_edges (filters : list string) (g : fullgraph) : list (string * string) :=
   let shown := displayed filters g in
   filter (fun e => str_mem (fst e) shown && str_mem (snd e) shown) (map snd (g_rels g)).
+
+(* SortedByFan(merge): fan-in / fan-out of every node of the merged graph, largest total first
+   (rows with the same total come in the order a Go map yields them) *)
+Definition fan_rows (mg : fullgraph) : list (string * nat * nat) :=
+  map (fun k => (k,
+                 List.length (filter (fun r => String.eqb (snd r) k) (map snd (g_rels mg))),
+                 List.length (filter (fun r => String.eqb (fst r) k) (map snd (g_rels mg)))))
+      (mkeys (g_nodes mg)).
+
+Definition fan_total (r : string * nat * nat) : nat := snd (fst r) + snd r.
+
+Fixpoint insert_fan (x : string * nat * nat) (l : list (string * nat * nat)) : list (string * nat * nat) :=
+  match l with
+  | [] => [x]
+  | y :: r => if Nat.leb (fan_total y) (fan_total x) then x :: l else y :: insert_fan x r
+  end.
+
+Definition sorted_by_fan (f : string -> string) (g : fullgraph) : list (string * nat * nat) :=
+  fold_right insert_fan [] (fan_rows (merge_graph f g)).
